@@ -8,7 +8,7 @@
 From Coq Require Import NArith List.
 From TLXV Require Import C14.Words.
 Import ListNotations.
-Open Scope N_scope.
+Local Open Scope N_scope.
 
 Section MD.
   Variable H : Type.                       (* chaining state (state_[]) *)
